@@ -46,6 +46,10 @@ CLAIMED = {
     text="(R1) gates as exact dispatch facts: the ARP reply is reachable only through operation==1 (the switch has no other arm), ICMPv4 only through type==8 and code==0, ICMPv6 only through code==0 (tested before anything else) and the type edges {135,128}, with nd_ns_repl on the 135 arm and the echo builder on the 128 arm; all other values therefore reach no reply. (R2) field provenance of every reply: ARP op 2, hardware type 1, sender=(configured MAC, requested address), target=(requester pair), buffer = copy of the request, every setter on every path; echo replies type 0/129, code 0, payload = the request payload slice (identifier, sequence, data), buffers sized from that payload; NA = {136,0,flags 0x60,target=solicited target}, option {2,1,configured MAC}, buffer = packet_size(advert)+packet_size(option), populate then set_options, relayed unchanged.",
     note="pnet payload()/setter offsets trusted (in pnet the ICMP payload starts at the identifier). Membership of the target address is C02.",
     technique="must-pass-through dispatch gates + provenance tables on MIR", ref="§4 C05"),
+ 'C12': dict(
+    text="Decides each protocol's reply-marker gate and that the responder's own output carries the marker: ARP op 2, ICMP type 0, ICMPv6 types 129/136 have no arm and replies are reachable only through the request values; all 512 TCP flag values: SYN|ACK, RST and every RST-bearing / SYN+ACK set without PSH|ACK select drop arms; STUN replies lie behind class==0 and method==1 and the response is written with class 2; SMB1/SMB2 payload dissectors are created only behind (flags & 0x80/0x1) clear, the payload slot has no other writer and the header repl() builds nothing without it; DNS replies lie behind header.QR==0 (QR = bit 15 of the flags word) and the response header sets QR=1; the two ONC-RPC signatures contain the literal message type 0 and the reply header starts with message type 1.",
+    note="Not decided: the 'at most two replies' bound for messages that are simultaneously a reply of X and a valid request of another protocol Y, and the SSH/Gh0st self-similar exchanges (not in the statement's list).",
+    technique="must-pass-through gates + constant extraction + exhaustive flag table on MIR", ref="§4 C12"),
 }
 
 NOT_YET = {}
